@@ -473,7 +473,7 @@ def _decoder_masks(fn: FuncInfo, m: Any, ce: ConstEval) -> Dict[str, Any]:
 
 
 def _is_key_expr(v: ast.AST) -> bool:
-    has_mask = any(isinstance(n, ast.Attribute) and n.attr == 'mask' for n in ast.walk(v))
+    has_mask = any(isinstance(n, ast.Attribute) and n.attr == 'mask' for n in ast.walk(v)) or norm(v).replace(' ', '') in ('secrets.token_bytes(4)', 'os.urandom(4)')
     has_call = any(isinstance(n, ast.Call) and (attr_chain(n.func) or '').split('.')[-1] in ('pack', 'apply_mask') for n in ast.walk(v))
     has_data = any(isinstance(n, ast.Attribute) and n.attr == 'data' for n in ast.walk(v))
     return has_mask and not has_call and not has_data
